@@ -5,6 +5,7 @@ import (
 	"fmt"
 	"os"
 	"path/filepath"
+	"strings"
 	"testing"
 
 	hdf5 "github.com/scigolib/hdf5"
@@ -33,7 +34,14 @@ type Case struct {
 func gen(t *rapid.T) Case {
 	c := Case{SB: rapid.SampledFrom([]int{2, 2, 0, 3}).Draw(t, "sb"), After: rapid.Bool().Draw(t, "after")}
 	rank := rapid.SampledFrom([]int{1, 1, 2, 2, 3}).Draw(t, "rank")
-	c.D.Type = rapid.SampledFrom([]string{"i32", "f64", "i64", "u32", "f32", "u8", "i16"}).Draw(t, "type")
+	c.D.Type = rapid.SampledFrom([]string{"i32", "f64", "i64", "u32", "f32", "u8", "i16", "i32", "f64", "arr:i32", "arr:f64", "arr:u8", "str"}).Draw(t, "type")
+	switch {
+	case strings.HasPrefix(c.D.Type, "arr:"):
+		// one element is a whole array: sizes derived from the base type instead of the element are wrong by this factor
+		c.D.ArrDims = rapid.SliceOfN(rapid.SampledFrom([]uint64{1, 2, 3}), 1, 2).Draw(t, "arrdims")
+	case c.D.Type == "str":
+		c.D.StrSize = rapid.SampledFrom([]int{1, 5, 8}).Draw(t, "strsize")
+	}
 	maxExt := []int{24, 9, 5}[rank-1]
 	for i := 0; i < rank; i++ {
 		e := uint64(rapid.IntRange(1, maxExt).Draw(t, "extent"))
@@ -231,10 +239,26 @@ func run(c Case) vt.Verdict {
 	f := obs.Read(file, obs.Options{SelSeeds: []uint64{11, 22, 33, 44}})
 	ps := hist.Compare(ex.M, f, hist.Opts{})
 	for _, p := range ps {
-		if staleRisk && p.Path == "/r" && (p.Kind == "read-error" || p.Kind == "read-values") {
+		if staleRisk && p.Path == "/r" && (p.Kind == "read-error" || p.Kind == "read-values" || p.Kind == "strings-error" || p.Kind == "strings-values" || p.Kind == "partial-read-values") {
 			return vt.KnownOr(kfShrink, "%s", p)
 		}
 		return vt.Bad("%d problem(s) after reopen, first: %s (spec %+v)", len(ps), p, c.D)
+	}
+	// the stored bytes as an independent decoder sees them (element types without a typed read, chunk index consistency);
+	// after a shrink that left stale chunks behind (open finding) the index is known to hold chunks outside the extent
+	if !staleRisk {
+		if data, err := os.ReadFile(file); err == nil {
+			res := hist.CompareIndep(ex.M, data)
+			if res.DecodeErr != "" {
+				return vt.Bad("independent decoder cannot decode the written file: %s (spec %+v)", res.DecodeErr, c.D)
+			}
+			for _, p := range res.Problems {
+				if p.Kind == "indep-refcount" {
+					continue
+				}
+				return vt.Bad("independent decoder disagrees with the model: %s (spec %+v)", p, c.D)
+			}
+		}
 	}
 	return vt.Pass()
 }
